@@ -10,6 +10,15 @@ os.makedirs(out, exist_ok=True)
 os.makedirs("/tmp/wt", exist_ok=True)
 if not os.path.isdir(wt):
     subprocess.check_call(["git", "-C", "/repo", "worktree", "add", "--detach", wt, "HEAD"], stdout=subprocess.DEVNULL, stderr=subprocess.DEVNULL)
+used = []
+bdir = os.path.join(here, "..", "benign")
+if os.path.isdir(bdir):
+    for d in sorted(os.listdir(bdir)):
+        if d.startswith(pid + "-") and os.path.exists(os.path.join(bdir, d, "notes.md")):
+            used.append("  - " + " ".join(open(os.path.join(bdir, d, "notes.md")).read().split())[:420])
+already = ("\nAnother maintainer already made the following change for this property; yours must be DIFFERENT in location and kind, and should "
+           "preferably change WHICH of several allowed outcomes is produced (a different legal tie-break, a different legal representative, a different "
+           "legal order, a different legal schedule) rather than only how the same outcome is computed:\n" + "\n".join(used) + "\n") if used else ""
 files = ", ".join(prop["anchors"]["files"])
 mech = "; ".join("%s (%s)" % (m["name"], m["where"]) for m in prop["anchors"].get("mechanism", []))
 prompt = f"""You are helping to evaluate a verification tool for FALSE ALARMS by playing the role of a maintainer who makes a legitimate change.
@@ -25,6 +34,7 @@ A semantic property of the library that must REMAIN TRUE after your change:
   Mechanisms: {mech}
 
 Task: make ONE realistic, non-trivial source change (10-60 changed lines, under artap/, not under artap/tests/) to the code this property is about, of the kind maintainers really make, that changes HOW the code works or WHICH of several allowed outcomes it produces, while the property above stays true for every input / schedule / history it quantifies over. Good candidates: restructuring a loop or splitting a function; vectorising with numpy or replacing numpy by plain Python; caching that is provably safe; a different but equally valid tie-break or iteration order where the property leaves the choice open; consuming random numbers in a different order; different internal data structures (dict instead of list, set instead of scan) where semantics are kept; extra logging / timing features; renamed private helpers; reordered independent statements; defensive copies; type conversions that do not change values; an additional optional argument with a default that keeps the behaviour. Prefer changes that alter observable-but-unspecified details (order of equal elements, which duplicate is kept, object identity of returned lists, extra feature keys, number of random draws) over pure renames.
+{already}
 Do NOT weaken the property, and do not change public signatures in a way existing callers would break. The existing test suite must still pass exactly as before (run at least the test files that touch the changed code: `cd {wt} && PYTHONPATH={wt} /venv/bin/python -m pytest -q -p no:cacheprovider --timeout=900 artap/tests/<relevant files>`; a handful of tests are flaky or fail on the unmodified tree for unrelated reasons (ZDT1 tests, test_surrogate_function, surrogate_smt) -- ignore those; compare before/after).
 
 Deliverables, written to {out}/ :
